@@ -238,3 +238,27 @@ if __name__ == "__main__":
     finally:
         if not a.keep:
             shutil.rmtree(s, ignore_errors=True)
+
+
+def build_replay(scratch):
+    """build /verif/replay against the scratch copy of the current tree; returns path of the binary"""
+    rdir = os.path.join(scratch, "verif-replay")
+    shutil.copytree(os.path.join(VERIF, "replay"), rdir)
+    t = open(os.path.join(rdir, "Cargo.toml.in")).read().replace("@CORE@", os.path.join(scratch, "crates", "core"))
+    open(os.path.join(rdir, "Cargo.toml"), "w").write(t)
+    shutil.copy(os.path.join(REPO, "Cargo.lock"), os.path.join(rdir, "Cargo.lock"))
+    tgt = os.path.join(CACHE, "replay-target")
+    env = dict(os.environ, CARGO_NET_OFFLINE="true", CARGO_TARGET_DIR=tgt, RUSTFLAGS="-Awarnings")
+    r = sh(["cargo", "build", "--offline", "-q"], cwd=rdir, env=env)
+    if r.returncode != 0:
+        # Cargo.lock of the workspace may not fit the tiny crate; retry without it
+        os.remove(os.path.join(rdir, "Cargo.lock"))
+        r = sh(["cargo", "build", "--offline", "-q"], cwd=rdir, env=env)
+    if r.returncode != 0:
+        raise RuntimeError("replay build failed:\n" + r.stderr[-2000:])
+    return os.path.join(tgt, "debug", "iref-verif-replay")
+
+
+def replay(binary, *args, timeout=20):
+    r = subprocess.run([binary] + list(args), stdout=subprocess.PIPE, stderr=subprocess.PIPE, text=True, timeout=timeout)
+    return r.returncode, r.stdout.strip(), r.stderr.strip()
